@@ -202,3 +202,38 @@ Definition holds_lin (c : ncase) : bool :=
       obs_okb nd && Qc_eqb (n1 * d0) (n0 * d1) && Qc_eqb (a1 * (n0 * d0)) (a0 * (n1 * d1))
   | Raise _ => true
   end.
+
+(* ---------------------------------------------------------------- hist: histories on live objects *)
+(* One observation of a (nested) filter list in its CURRENT state: o_s = the members it holds now,
+   o_out = list(L(x)) with x given as some kind of iterable, o_num / o_den = L.numpoly / L.denpoly when read *)
+Record ocase := OC { o_s : sexpr; o_x : list Qc; o_out : res (list Qc);
+                     o_num : option (res poly); o_den : option (res poly) }.
+Definition opt_poly_eqb (o : option (res poly)) (m : res poly) : bool :=
+  match o with None => true | Some r => res_eqb poly_eqb r m end.
+Definition corr_obs (c : ocase) : bool :=
+  match seval (o_s c) with
+  | Raise _ => true
+  | Ok st => res_eqb qlist_eqb (o_out c) (srun st (o_x c)) &&
+             opt_poly_eqb (o_num c) (spoly true st) && opt_poly_eqb (o_den c) (spoly false st)
+  end.
+(* what the text demands: the output is that of the product / sum (the unique solution of its difference
+   equation), the polynomials are the product / sum up to ~ *)
+Definition holds_obs (c : ocase) : bool :=
+  match ssem (o_s c) with
+  | None => true
+  | Some q =>
+      (if runnable q then match o_out c with Ok y => resp_b (fst q) (snd q) (o_x c) y | Raise _ => false end
+       else true) &&
+      match o_num c, o_den c with
+      | Some (Ok n), Some (Ok d) => wfb n && wfb d && frac_eqb (n, d) q
+      | _, _ => true
+      end
+  end.
+(* a history: every observation made along it, each against the contents at that moment.
+   h_ts: filter objects (operands re-observed after they were used, results), h_qs: == / != / hash of an
+   object against the same filter built afresh, h_os: filter lists between in-place edits *)
+Record hcase := HC { h_ts : list tcase; h_qs : list qcase; h_os : list ocase }.
+Definition corr_hist (c : hcase) : bool :=
+  forallb corr_tree (h_ts c) && forallb corr_eq (h_qs c) && forallb corr_obs (h_os c).
+Definition holds_hist (c : hcase) : bool :=
+  forallb holds_tree (h_ts c) && forallb holds_eq (h_qs c) && forallb holds_obs (h_os c).
